@@ -40,6 +40,9 @@ pub enum Call {
     Info,
     /// `verify_and_apply_proof` of the pre-computed proof number I (replica mode only)
     Apply(u64),
+    /// `clear(START, END)` on the core behind the shared mutex (`SharedCore` has no clear of its own: the lock is taken as its
+    /// methods take it)
+    Clear(u64, u64),
     /// `missing_nodes(I)`
     Missing(u64),
     /// `create_proof(block {I, 0}, -, -, -)`; only the class of the answer is recorded
@@ -76,6 +79,7 @@ pub fn parse_tasks(s: &str, nt: usize, nproofs: u64) -> Option<Vec<Vec<Call>>> {
                     }
                     Call::Apply(i)
                 }
+                ("clear", 3) => Call::Clear(num(w[1])?, num(w[2])?),
                 ("missing", 2) => Call::Missing(num(w[1])?),
                 ("prove", 2) => Call::Prove(num(w[1])?),
                 _ => return None,
@@ -162,6 +166,10 @@ pub fn run(
                             Err(e) => repl_err(&e),
                         }
                     }
+                    Call::Clear(s, e) => match sc.0.lock().await.clear(s, e).await {
+                        Ok(()) => "ok".to_string(),
+                        Err(e) => format!("err {}", err_name(&e)),
+                    },
                     Call::Missing(i) => match sc.missing_nodes(i).await {
                         Ok(n) => format!("ok {n}"),
                         Err(e) => repl_err(&e),
